@@ -243,7 +243,7 @@ CHECKS = {
         "timeout": {"quick": 1200, "thorough": 14000},
     },
     "C08": {
-        "scenarios": [("C08-skew", "vsim"), ("C08-client", "vsim"), ("C08-cache", "vsim"), ("C08-predial", "vsim"), ("C08-back", "vtime"), ("C08-skew", "vtime", 0.125), ("C08-client", "vtime", 0.25)],
+        "scenarios": [("C08-skew", "vsim"), ("C08-client", "vsim"), ("C08-cache", "vsim"), ("C08-predial", "vsim"), ("C08-reuse", "vsim"), ("C08-back", "vtime"), ("C08-skew", "vtime", 0.125), ("C08-client", "vtime", 0.25)],
         "rule": "(a) the virtual clock is moved to instants k*120+60 s (key slot change) and k*60 s (minute tick) +-2 s in 250 ms steps, "
                 "or random; a reference client whose key instant and stamp instant are chosen independently (+-0/1/30/59/60 s for "
                 "acceptance; stamp >= 2 minutes or key >= 4 minutes away for rejection) handshakes with the real server on both "
@@ -260,7 +260,7 @@ CHECKS = {
         "min_obs": {"handshakes": 500, "key_lookups": 2000, "skews_checked": 1000},
     },
     "C10": {
-        "scenarios": [("C10-server", "vsim"), ("C10-client", "vsim"), ("C10-idle", "vsim"), ("C10-unreach", "vsim"), ("C10-api", "vsim"), ("C10-socks", "vreal"), ("C05-probe", "vsim", 0.25)],
+        "scenarios": [("C10-server", "vsim"), ("C10-client", "vsim"), ("C10-idle", "vsim"), ("C10-unreach", "vsim"), ("C10-flood", "vsim"), ("C10-api", "vsim"), ("C10-socks", "vreal"), ("C05-probe", "vsim", 0.25)],
         "rides_on": ["C10"],
         "side_only": False,
         "rule": "per case 250 (quick) / 1500 (thorough) segments built by the reference codec with the valid credential of user bob: all "
